@@ -108,6 +108,13 @@ def exc_symptom(e):
     return f"exc:{type(e).__name__}@{where}"
 
 
+def exc_origin(e):
+    """file of the frame that raised (to tell a failure inside a third-party SAT engine wrapper
+    from one inside the library)"""
+    tb = traceback.extract_tb(e.__traceback__)
+    return tb[-1].filename if tb else ""
+
+
 def infer(atoms, base, queries, cfg, weakly=False, **kw):
     """run one manager over the queries; returns list of (result, timed_out, pre_timed_out)
     rows or raises"""
@@ -140,5 +147,5 @@ def answers(atoms, base, queries, cfg, weakly=False, **kw):
     except BaseException as e:  # noqa: BLE001 - classified, never swallowed silently
         if isinstance(e, (KeyboardInterrupt, SystemExit, MemoryError)):
             raise
-        return ("exc", exc_symptom(e), f"{type(e).__name__}: {e}"[:300])
+        return ("exc", exc_symptom(e), f"{type(e).__name__}: {e}"[:300], exc_origin(e))
     return ("ok", [r["result"] for r in rows], rows)
